@@ -307,5 +307,55 @@ def r18_6(ctx):
              rn.loc(c1[0]) if c1 else rn.loc()))
 
 
+def r18_7(ctx):
+    """R18.7 (a) the checker reads the file line by line as the parsers do (file iteration): nothing in kconfcheck cuts text
+    with str.splitlines(), which would also cut at form feed / U+2028 inside a help text or prompt and check (and
+    "fix") the tail as a line of its own; (b) a suggestion passes the test that produced it: the sourced-file-name test is
+    a prefix test on the very literal the suggestion prepends (a stricter test would reject its own suggestion again on
+    the next pass and the file never converges); (c) indentation is measured from the left edge only - never as a length
+    difference with a text stripped on both sides, which counts trailing blanks as indentation."""
+    from .common import no_splitlines
+    repo = ctx.repo
+    no_splitlines(ctx, [m for m in ("kconfcheck.core", "kconfcheck.__main__", "kconfcheck.check_deprecated_options") if m in repo.modules],
+                  "the checkers see a line boundary where the Kconfig parsers see none")
+    vf = repo.func(f"{MOD}:validate_file")
+    ctx.analysed(vf.qual)
+    loops = [n for n in ast.walk(vf.node) if isinstance(n, ast.For) and isinstance(n.iter, ast.Call) and ast.unparse(n.iter.func) == "enumerate" and n.iter.args]
+    construct = "validate_file/lines are the lines of the file object"
+    it = ast.unparse(loops[0].iter.args[0]) if loops else "?"
+    opened = {ast.unparse(i.optional_vars) for w in ast.walk(vf.node) if isinstance(w, ast.With) for i in w.items if i.optional_vars is not None}
+    (ctx.ok(construct, vf.loc(loops[0])) if loops and it in opened else
+     ctx.bad(construct, f"the line loop iterates `{it}`, not the opened file: line boundaries are no longer the file's own", vf.loc(loops[0]) if loops else vf.loc()))
+    sc = repo.func(f"{MOD}:SourceChecker.process_line")
+    ctx.analysed(sc.qual)
+    construct = "SourceChecker.process_line/the file-name suggestion passes the file-name test"
+    tests = [n for n in ast.walk(sc.node) if isinstance(n, ast.If) and "filename" in ast.unparse(n.test) and any(isinstance(x, ast.Raise) for x in n.body)]
+    verdict = None
+    for t in tests:
+        sw = [c for c in ast.walk(t.test) if isinstance(c, ast.Call) and isinstance(c.func, ast.Attribute) and c.func.attr == "startswith"
+              and ast.unparse(c.func.value) == "filename" and c.args and isinstance(c.args[0], ast.Constant)]
+        sug = [c for r in t.body for c in ast.walk(r) if isinstance(c, ast.BinOp) and isinstance(c.op, ast.Add) and isinstance(c.left, ast.Constant)
+               and isinstance(c.right, ast.Name) and c.right.id == "filename"]
+        if sug:
+            lit = sug[0].left.value
+            verdict = (bool(sw) and sw[0].args[0].value == lit and isinstance(t.test, ast.UnaryOp), lit, t)
+    if verdict is None:
+        raise AnchorError("SourceChecker.process_line: file-name test with a `<literal> + filename` suggestion not found")
+    (ctx.ok(construct, sc.loc(verdict[2]), prefix=verdict[1]) if verdict[0] else
+     ctx.bad(construct, f"the test is not `not filename.startswith({verdict[1]!r})` although the suggestion is `{verdict[1]!r} + filename`: a name the "
+             "stricter test rejects is `corrected` into another rejected name on every pass", sc.loc(verdict[2])))
+    ip = repo.func(f"{MOD}:IndentAndNameChecker.process_line")
+    ctx.analysed(ip.qual)
+    both = {n.targets[0].id for n in ast.walk(ip.node) if isinstance(n, ast.Assign) and isinstance(n.targets[0], ast.Name) and isinstance(n.value, ast.Call)
+            and isinstance(n.value.func, ast.Attribute) and n.value.func.attr == "strip" and not n.value.args}
+    defs = [n for n in ast.walk(ip.node) if isinstance(n, ast.Assign) and isinstance(n.targets[0], ast.Name) and n.targets[0].id == "current_indent"]
+    if not defs:
+        raise AnchorError("IndentAndNameChecker.process_line: current_indent not found")
+    construct = "IndentAndNameChecker.process_line/indentation is measured from the left edge"
+    bad = [d for d in defs if {x.id for x in ast.walk(d.value) if isinstance(x, ast.Name)} & both]
+    (ctx.bad(construct, f"`{ast.unparse(bad[0])}` uses a text stripped on both sides: trailing blanks count as indentation, the line is flagged and "
+             "the suggestion keeps the blanks, so every pass flags it again", ip.loc(bad[0])) if bad else ctx.ok(construct, ip.loc(defs[0]), both_sides_stripped=sorted(both)))
+
+
 def rules():
-    return [("R18.1", r18_1, 3), ("R18.2", r18_2, 4), ("R18.3", r18_3, 3), ("R18.4", r18_4, 2), ("R18.5", r18_5, 4), ("R18.6", r18_6, 4)]
+    return [("R18.7", r18_7, 3), ("R18.1", r18_1, 3), ("R18.2", r18_2, 4), ("R18.3", r18_3, 3), ("R18.4", r18_4, 2), ("R18.5", r18_5, 4), ("R18.6", r18_6, 4)]
